@@ -29,4 +29,19 @@ PROPS = {
         "trusted": ["partial: thread-local storage is taken to be per-thread and each AtomicBool access to be one atomic step (hardware memory model assumed, not verified)"] + COMMON_TRUST,
         "assumptions": ["operation-granularity interleavings are complete because every public function touches the atomic at most once"],
     },
+    "C18": {
+        "streams": [{"name": "c18"},
+                    {"name": "c18", "tag": "nobmi2", "target_dir": "target-nobmi2", "rustflags": "-Ctarget-cpu=native -Ctarget-feature=-bmi2"}],
+        "translators": [],
+        "rule": "2081 structured boards (empty, full, 64 singles, 2016 pairs, 8 files, 8 ranks) and seeded random words through every unary operation; all 64 squares for contains/with/cleared on a sample; binary operations on mixed structured/random pairs (all operator impls cross-checked); nth for n in 0..=70 and huge n on both CPU-feature builds (BMI2/PDEP path and portable path); non-trivial = board neither empty nor full (unary) / any (others); distinct = distinct request lines",
+        "trusted": ["modelled, not verified: u64::trailing_zeros, count_ones, swap_bytes and the BMI2 intrinsic _pdep_u64 are small recursive Lean definitions (Model/Basic.lean: tz, popcountAux, swapBytes, pdepAux) whose set meaning is proved; their agreement with the hardware/std behaviour is exercised by the stream"] + COMMON_TRUST,
+        "assumptions": ["BitBoardIter::nth returning None leaves the iterator as it was on the BMI2 path (observed behaviour, not constrained by the property)"],
+    },
+    "C19": {
+        "streams": [{"name": "c19"}],
+        "translators": [],
+        "rule": "exhaustive: 64 squares x 9 coordinate functions, 256 single bytes x 6 parsers, all 65536 two-byte strings for Pos, all 14^4 four-byte move strings over the boundary alphabet (every 11th of 14^5 in quick, all in thorough), all iterator operation sequences over 17 operations to depth 3 (quick) / 4 (thorough) for the five enumerating iterators; plus mutated valid moves and random byte strings; FromStr cross-checked against from_ascii_bytes on UTF-8 inputs; distinct = distinct request lines",
+        "trusted": ["modelled, not verified: core::ops::Range<u8> (next, next_back, nth, nth_back, size_hint) as Model/Text.lean Range"] + COMMON_TRUST,
+        "assumptions": [],
+    },
 }
